@@ -18,7 +18,7 @@ func initAllowed(path string) bool {
 	switch path {
 	case "github.com/RoaringBitmap/roaring/v2", "github.com/RoaringBitmap/roaring/v2/roaring64",
 		"github.com/RoaringBitmap/roaring/v2/BitSliceIndexing", "github.com/RoaringBitmap/roaring/v2/internal",
-		vsymPath, "io", "encoding/base64", "math/big", "github.com/bits-and-blooms/bitset", "encoding/binary", "bytes", "errors":
+		"io", "encoding/base64", "math/big", "github.com/bits-and-blooms/bitset", "encoding/binary", "bytes":
 		return true
 	}
 	return false
@@ -27,7 +27,7 @@ func initAllowed(path string) bool {
 // globals of non-initialised packages that may be read as zero
 func globalZeroOK(g *ssa.Global) bool {
 	switch g.Pkg.Pkg.Path() {
-	case "sync", "sync/atomic", "internal/race", "runtime", "unicode/utf8", "math/bits", "internal/cpu", "internal/bytealg", "strconv", "sort", "slices", "container/heap":
+	case "errors", "sync", "sync/atomic", "internal/race", "runtime", "unicode/utf8", "math/bits", "internal/cpu", "internal/bytealg", "strconv", "sort", "slices", "container/heap":
 		return true
 	}
 	return false
@@ -281,7 +281,7 @@ func lookupIntrinsic(fn *ssa.Function) intrinsicFn {
 	if f, ok := intrinsics[name]; ok {
 		return f
 	}
-	if strings.HasPrefix(name, vsymPath+".") {
+	if strings.HasPrefix(name, vsymPath+".") && fn.Name() != "init" {
 		panic("vsym function without VM model: " + name)
 	}
 	return nil
@@ -412,6 +412,7 @@ func init() {
 	intrinsics[V+"Catch"] = func(vm *VM, fr *frame, args []Value, cc *ssa.CallCommon) (ret Value) {
 		depth := vm.callDepth
 		saveFn := vm.curFn
+		sp := len(vm.stack)
 		ret = vm.ts.tFalse
 		func() {
 			defer func() {
@@ -421,6 +422,7 @@ func init() {
 					}
 					vm.callDepth = depth
 					vm.curFn = saveFn
+					vm.stack = vm.stack[:sp]
 					ret = vm.ts.tTrue
 				}
 			}()
@@ -498,4 +500,21 @@ func init() {
 	intrinsics[vsymPath+".Register"] = nop
 	intrinsics[vsymPath+".CheckFrozen"] = nop
 	intrinsics[vsymPath+".ReplayMain"] = nop
+}
+
+func init() {
+	intrinsics[vsymPath+".PopCount64"] = func(vm *VM, fr *frame, args []Value, cc *ssa.CallCommon) Value {
+		w := args[0].(*Term)
+		if w.op == OpConst {
+			n := 0
+			for c := w.c; c != 0; c &= c - 1 {
+				n++
+			}
+			return vm.ts.BV(64, uint64(n))
+		}
+		return vm.ts.PopCount(w)
+	}
+	intrinsics[vsymPath+".Concrete"] = func(vm *VM, fr *frame, args []Value, cc *ssa.CallCommon) Value {
+		return vm.ts.Bool(args[0].(*Term).op == OpConst)
+	}
 }
